@@ -402,7 +402,7 @@ def run_detector_selftest(pid):
             os.remove(path)
     # representation stress (tools/stress_facts.py): renamed variables, shifted lines, permuted blocks and locals must not change the verdict
     sp = subprocess.run([sys.executable, os.path.join(VERIF, "tools", "stress_facts.py"), "--only", pid], stdout=subprocess.PIPE, stderr=subprocess.STDOUT, text=True)
-    stress = {"modes": ["rename", "lines", "blocks", "locals"], "alarms": [l for l in sp.stdout.splitlines() if " ALARM " in l], "exit": sp.returncode}
+    stress = {"modes": ["rename", "lines", "blocks", "locals", "mirror"], "alarms": [l for l in sp.stdout.splitlines() if " ALARM " in l], "exit": sp.returncode}
     muts = [r for r in res if r.get("expect") != "none"]
     ben = [r for r in res if r.get("expect") == "none"]
     return {
